@@ -51,7 +51,7 @@ def node_multiset(draw, U, p, invalid):
 
 @st.composite
 def cases(draw, nums, invalid_kinds=(None,), pmax=4, kmax=4):
-    c = draw(gen.curves(0, pmax, kmax, nums=nums))
+    c = draw(gen.curves(0, pmax, kmax, nums=nums, regimes="all"))
     invalid = draw(st.sampled_from(list(invalid_kinds)))
     nodes = draw(node_multiset(c["U"], c["p"], invalid))
     return {"curve": c, "nodes": nodes, "invalid": invalid, "twin_first": draw(st.integers(0, 2)) == 0,
